@@ -97,6 +97,21 @@ PROPS = {
         ],
         "gen": [],
     },
+    "C11": {
+        "level_text": "Lean 4 theorems over a labelled transition system of the workspace permit (any number of sessions, agent loops and background tasks; programs of mutating calls — with or without a runner timeout, attached to a thread or not — and read-only calls; one transition = acquire / effect begins / effect ends / runner timeout / frames emitted / side-effects frame / release): for EVERY program set and EVERY interleaving at most one mutation is in progress at any instant (the accounting is proved exact, not under-reported), the side-effects frames are always a prefix of, and finally equal to, the order the mutations really began in, one frame per call, logged after the effect and before release; no deadlock. The statement is proved FALSE of the protocol before the repair (a timed-out command outlived its permit; witness kept) and TRUE once the timeout kills the command. Obligations re-proved by decide on tables REGENERATED from the current source on every run: in run_session and the agent loop every tool execution is inside the permit or in the no-lock arm of the requires_workspace_lock decision, the side-effects append is inside the same critical section after the tool's frames; run_task runs its process under the permit; the exempt tools are exactly a subset of read / ls / grep / artifact_fetch. Tied further by a real-concurrency implementation oracle: sessions (bash, write, apply_patch, checkpoint, timed-out bash, read-only) and tasks run concurrently against one engine; commands stamp begin/end times into the workspace; intervals of mutating actors must be pairwise disjoint and the thread's side-effects frames must be in stamp order, one per attached mutating call.",
+        "level_note": "Lean kernel; tokio Semaphore(1) is a mutex (modelled, not verified); process-group kill reaches every descendant that has not left the group (setsid escapes are outside the model); ripx sees tool executions by the calls it knows (tool_runner.run / create_checkpoint / rewind_checkpoint / run_pipes_task / run_pty_task) — a new way to run a tool would be missed statically and is left to the oracle.",
+        "technique": "Lean 4 proof (inductive invariant over all interleavings incl. timeouts; decide-checked counterexample for the unrepaired protocol) + decide over regenerated effect orders and lock table + real-concurrency interval oracle",
+        "design_ref": "§5 C11",
+        "trusted_base": COMMON_TB + [
+            "translator ripx (syn): effect orders of run_session, run_openresponses_agent_loop, run_task with branch markers; requires_workspace_lock table; fails closed on compound conditions around the decision",
+            "modelled, not verified: tokio::sync::Semaphore, kill(2) on a process group, wall-clock stamps of the oracle (date +%s%N)",
+        ],
+        "assumptions": [
+            "commands do not detach from their process group (setsid/daemonise)",
+            "read, ls, grep and artifact_fetch do not modify the workspace (the oracle compares the workspace tree before and after read-only actors)",
+        ],
+        "gen": ["EffectOrder", "LockTable"],
+    },
     "C12": {
         "level_text": "Lean 4 theorems over an executable model of the patch engine (byte-level parser, hunk application, file system with directories, undo list and revert): exactness on success for every workspace state and operation list (result = in-order fold of the operation semantics; changed files = sorted, de-duplicated named files), parser totality and path confinement, hunk locality; all-or-nothing on failure via the undo invariant (theorem `atomic`, see evidence for whether it is included in this build). Tied to the code by differential correspondence: the same (workspace, patch document) pairs run through rip-workspace in a scratch directory and through the compiled model, full tree (files, bytes, directories), result and error class compared; plus implementation oracles for all-or-nothing and changed-files.",
         "level_note": "Lean kernel; model hand-written, validated by the correspondence check; std::fs semantics (exists/read/write/create_dir_all/remove_file/rename on files vs directories, trailing-slash spellings) are modelled, not verified; symlinks, I/O errors during rollback and concurrent external writers are outside the model.",
